@@ -48,7 +48,7 @@ PairSeq(p) ==
               LAMBDA ab : ab[1] < ab[2])
 
 (* ---- physical standards ---- *)
-Phys(sid, ports, cells) == [sid |-> sid, ports |-> ports, cells |-> cells]
+Phys(sid, ports, cells) == [sid |-> sid, ports |-> ports, cells |-> TLCEval(cells)]
 
 ReflP(sid, a, v) == Phys(sid, <<a>>, [ab \in {<<a, a>>} |-> v])
 Refl2P(sid, a, b, v1, v2) ==
@@ -116,7 +116,7 @@ AllForms(ph, r, c) ==
                      o == ors[((q \div Len(eps)) % Len(ors)) + 1]
                      m == mds[((q \div (Len(eps) * Len(ors))) % Len(mds)) + 1]
                  IN AddStep(ph, e, o, FALSE, m[1], m[2])
-        base == [q \in 1..tot |-> At(q - 1)]
+        base == TLCEval([q \in 1..tot |-> At(q - 1)])
     IN IF ph.ports = Iota(Ports(r, c))
        THEN base \o <<AddStep(ph, "mapped", ph.ports, TRUE, r, c)>>
        ELSE base
@@ -125,7 +125,7 @@ OkForms(t, r, c, ph) ==
     SelectSeq(AllForms(ph, r, c), LAMBDA a : Verdict(t, r, c, ToStd(a)) = "ok")
 
 Pick(t, r, c, ph, v, i) ==
-    LET fs == OkForms(t, r, c, ph)
+    LET fs == TLCEval(OkForms(t, r, c, ph))
     IN fs[((v * 7 + i * 3) % Len(fs)) + 1]
 
 (* the plainest form: listed in port order, full M, most specific entry *)
@@ -201,7 +201,9 @@ OkOnly(t, r, c, adds) ==
 
 Life(t, r, c, nf, form, rel, k, adds, pi) ==
     [op |-> "life", t |-> t, r |-> r, c |-> c, nf |-> nf, form |-> form,
-     rel |-> rel, k |-> k, leak |-> LeakOf(t, r, c, OkOnly(t, r, c, adds)), pi |-> pi]
+     rel |-> rel, k |-> k,
+     leak |-> IF OutsideLeak(t) THEN LeakOf(t, r, c, OkOnly(t, r, c, adds)) ELSE {},
+     pi |-> pi]
 
 Op(name) == [op |-> name]
 Apply(d) == [op |-> "apply", dut |-> d]
@@ -218,29 +220,30 @@ Name(tag, t, r, c, v) ==
 -----------------------------------------------------------------------------
 (* C01 *)
 C01Row(t, r, c, v) ==
-    LET rec  == Recipe(t, r, c, PsOf(v))
-        adds == [i \in 1..Len(rec) |-> Pick(t, r, c, rec[i], v, i)]
-        bad  == Refused(t, r, c)
-        all  == IF bad = <<>> THEN adds
-                ELSE InsertAt(adds, v % (Len(adds) + 1), bad[(v % Len(bad)) + 1])
+    LET rec  == TLCEval(Recipe(t, r, c, PsOf(v)))
+        adds == TLCEval([i \in 1..Len(rec) |-> Pick(t, r, c, rec[i], v, i)])
+        bad  == TLCEval(Refused(t, r, c))
+        all  == TLCEval(IF bad = <<>> THEN adds
+                ELSE InsertAt(adds, v % (Len(adds) + 1), bad[(v % Len(bad)) + 1]))
     IN [name |-> Name("c01", t, r, c, v),
         steps |-> <<Life(t, r, c, NfOf(v), FormOf(v), "none", 0, all, <<>>)>>
                   \o all
                   \o <<Op("solve"), Op("addcal"), Apply(v), Op("saveeq")>>]
 
 (* allocations the manual excludes *)
-BadAllocRows ==
+BadAllocRows(u) ==
     {[name |-> Name("c01-alloc", t, rc[1], rc[2], 0),
       steps |-> <<[op |-> "life", t |-> t, r |-> rc[1], c |-> rc[2], nf |-> 1,
                    form |-> "m", rel |-> "none", k |-> 0, leak |-> {}, pi |-> <<>>]>>] :
         t \in Types, rc \in {<<1, 2>>, <<2, 1>>, <<0, 1>>, <<1, 0>>, <<2, 3>>, <<3, 2>>}}
 
-C01Rows ==
+C01Rows(u) ==
     UNION {{C01Row(x[1], x[2], x[3], v) : v \in 0..(NVar - 1)} :
            x \in {y \in Types \X (1..MaxDim) \X (1..MaxDim) : DimsOK(y[1], y[2], y[3])}}
 
-C01Table ==
-    {x \in C01Rows : TRUE} \cup BadAllocRows
+(* (the dummy parameter keeps TLC from pre-evaluating the tables that are  *)
+(* not asked for)                                                         *)
+C01Table(u) == C01Rows(u) \cup BadAllocRows(u)
 
 -----------------------------------------------------------------------------
 (* C17 *)
@@ -268,9 +271,9 @@ C17Rels(t, r, c) ==
 
 C17Row(t, r, c, rel, v) ==
     LET ps   == PsOf(v)
-        rec  == Recipe(t, r, c, ps)
+        rec  == TLCEval(Recipe(t, r, c, ps))
         n    == Len(rec)
-        a1   == [i \in 1..n |-> Pick(t, r, c, rec[i], v, i)]
+        a1   == TLCEval([i \in 1..n |-> Pick(t, r, c, rec[i], v, i)])
         p    == Ports(r, c)
         form == IF rel = "scale" THEN "ab" ELSE FormOf(v)
         nf1  == IF rel = "split" THEN 2 + 3 * (v % 2) ELSE NfOf(v)
@@ -301,7 +304,7 @@ C17Row(t, r, c, rel, v) ==
         steps |-> Run(t, r, c, nf1, form, "none", 0, a1, <<>>, <<>>, d)
                   \o life2 \o <<[op |-> "compare", rel |-> rel]>>]
 
-C17Table ==
+C17Table(u) ==
     UNION {{C17Row(x[1], x[2], x[3], rel, v) : rel \in C17Rels(x[1], x[2], x[3]),
                                                v \in 0..(NVar - 1)} :
            x \in {y \in Types \X (1..MaxDim) \X (1..MaxDim) :
@@ -337,11 +340,11 @@ Unrank(avail, k, idx) ==
             Unrank(SubSeq(avail, 1, q) \o SubSeq(avail, q + 2, n), k - 1, idx % rest)
 
 C20Row(t, r, c, idx) ==
-    LET lst  == C20List(t, r, c)
+    LET lst  == TLCEval(C20List(t, r, c))
         n    == Len(lst)
         k    == IF n < MaxHist THEN n ELSE MaxHist
-        sel  == Unrank(Iota(n), k, idx)
-        adds == [i \in 1..k |-> Pick(t, r, c, lst[sel[i]], idx, i)]
+        sel  == TLCEval(Unrank(Iota(n), k, idx))
+        adds == TLCEval([i \in 1..k |-> Pick(t, r, c, lst[sel[i]], idx, i)])
         form == IF idx % 2 = 0 THEN "m" ELSE "ab"
         full == [i \in 1..n |-> Plain(t, r, c, lst[i])]
     IN [name |-> Name("c20", t, r, c, idx),
@@ -356,7 +359,7 @@ C20Count(t, r, c) ==
     LET n == Len(C20List(t, r, c))
     IN Falling(n, IF n < MaxHist THEN n ELSE MaxHist)
 
-C20Table ==
+C20Table(u) ==
     UNION {{C20Row(x[1], x[2], x[3], idx) :
                idx \in {i \in 0..(C20Count(x[1], x[2], x[3]) - 1) :
                            i % Stride = (x[2] + 2 * x[3]) % Stride}} :
@@ -388,9 +391,9 @@ ASSUME RecipesCountSufficient
 ASSUME FormsAgree
 
 Table ==
-    CASE Which = "c01" -> C01Table
-      [] Which = "c17" -> C17Table
-      [] Which = "c20" -> C20Table
+    CASE Which = "c01" -> C01Table(0)
+      [] Which = "c17" -> C17Table(0)
+      [] Which = "c20" -> C20Table(0)
 
 ASSUME JsonSerialize(IOEnv.CALFLOW_OUT, [rows |-> Table])
 ASSUME PrintT(<<"CALFLOWTABLE", Which, Cardinality(Table)>>)
